@@ -61,16 +61,18 @@ type plan struct {
 	Lo   *int64 `json:"lo,omitempty"` // FromTime of the request (ShiftMatching only): expiry >= Lo
 }
 type prog struct {
-	Kind string `json:"kind"` // SE (ShiftExpired) SM (ShiftMatching) PE W*
-	Hm   int    `json:"hm,omitempty"`
-	Od   bool   `json:"od,omitempty"`
-	P    plan   `json:"p"`
-	Nst  int    `json:"nst,omitempty"`
-	Nexp *int64 `json:"nexp,omitempty"` // nil untouched
-	K    int    `json:"k,omitempty"`
-	St   int    `json:"st,omitempty"`
-	Grp  int    `json:"grp,omitempty"`
-	E    int64  `json:"e,omitempty"`
+	Kind     string `json:"kind"` // SE (ShiftExpired) SM (ShiftMatching) PE W*
+	Hm       int    `json:"hm,omitempty"`
+	Od       bool   `json:"od,omitempty"`
+	P        plan   `json:"p"`
+	Nst      int    `json:"nst,omitempty"`
+	Nexp     *int64 `json:"nexp,omitempty"`      // nil untouched
+	Desc     bool   `json:"desc,omitempty"`      // ShiftMatching: OrderType DESC (newest expiry first)
+	CondFail bool   `json:"cond_fail,omitempty"` // PatchExpired: a Condition no record meets (all rejected)
+	K        int    `json:"k,omitempty"`
+	St       int    `json:"st,omitempty"`
+	Grp      int    `json:"grp,omitempty"`
+	E        int64  `json:"e,omitempty"`
 }
 type mstep struct {
 	Kind string `json:"kind"` // Built Selected Patched Finish
@@ -175,7 +177,7 @@ func runProg(e *lib.Env, sw string, p prog) result {
 		rs, err := e.ShiftExpired(sw, int32(p.Hm))
 		return shiftResult(rs, err)
 	case "SM":
-		q := lib.ShiftReq{Index: hydrapb.IndexType_EXPIRATION_TIME, HowMany: int32(p.Hm), Filters: filtersOf(p.P)}
+		q := lib.ShiftReq{Index: hydrapb.IndexType_EXPIRATION_TIME, HowMany: int32(p.Hm), Filters: filtersOf(p.P), Desc: p.Desc}
 		if p.Od {
 			q.To = &nowCut
 		}
@@ -186,7 +188,7 @@ func runProg(e *lib.Env, sw string, p prog) result {
 		rs, _, err := e.ShiftMatching(sw, q)
 		return shiftResult(rs, err)
 	case "PE":
-		q := lib.PEReq{HowMany: int32(p.Hm), NewStatus: statusName[p.Nst], Filters: filtersOf(p.P)}
+		q := lib.PEReq{HowMany: int32(p.Hm), NewStatus: statusName[p.Nst], Filters: filtersOf(p.P), CondFail: p.CondFail}
 		if p.Nexp != nil {
 			t := expOf(*p.Nexp)
 			q.NewExp = &t
@@ -540,6 +542,13 @@ func runDriven(e *lib.Env, rs []rec, ps []prog, kind string, drive func(d *drive
 						ev.Pre = append(ev.Pre, r)
 					}
 				}
+				if p.Desc {
+					// a DESC walk must be in DESCENDING expiry order: hand the oracle the mirror image
+					for i, j := 0, len(ev.Snap)-1; i < j; i, j = i+1, j-1 {
+						ev.Snap[i], ev.Snap[j] = ev.Snap[j], ev.Snap[i]
+						ev.Pre[i], ev.Pre[j] = ev.Pre[j], ev.Pre[i]
+					}
+				}
 				o.Events = append(o.Events, ev)
 			}
 			wasPatched := patched[t]
@@ -564,6 +573,11 @@ func runDriven(e *lib.Env, rs []rec, ps []prog, kind string, drive func(d *drive
 					o.Events = append(o.Events, oev{Kind: "Put", K: p.K})
 				}
 			}
+		}
+	}
+	for _, p := range ps {
+		if p.Desc || p.CondFail {
+			o.Replay = false // not modelled (the model walks one ascending index): oracle only
 		}
 	}
 	for t := range ps {
@@ -1195,6 +1209,45 @@ func main() {
 		}
 		ps := []prog{pe, w, {Kind: "WDel", K: k}, {Kind: "SE", Hm: 5, Od: true, P: plan{Kind: "none"}}}
 		add(runQueue(e, rs, ps, i%2 == 0, "forced-queue"))
+	}
+
+	// 1f. the DESC side of the expiry index: claims in descending order after PatchExpired batches
+	// (some with every selected record rejected by a Condition, so that nothing is re-saved),
+	// writers and ascending claims have reshuffled the index
+	ndesc := 40
+	if thorough {
+		ndesc = 400
+	}
+	for i := 0; i < ndesc; i++ {
+		n := 4 + rng.Intn(3)
+		rs := []rec{}
+		for k := 1; k <= n; k++ {
+			e := int64(-200 + 7*k + rng.Intn(5))
+			if rng.Chance(15) {
+				e = int64(k)
+			}
+			rs = append(rs, rec{K: k, St: rng.Intn(3), Grp: rng.Intn(4), E: e})
+		}
+		ps := []prog{}
+		if rng.Chance(40) {
+			ps = append(ps, genWriter(rng, n))
+		}
+		for j := 0; j < 1+rng.Intn(2); j++ {
+			pe := prog{Kind: "PE", Hm: 2 + rng.Intn(n), P: plan{Kind: []string{"none", "none", "eq", "ne"}[rng.Intn(4)], A: rng.Intn(3)}, Nst: 2, CondFail: rng.Chance(60)}
+			if !pe.CondFail && rng.Bool() {
+				f := freshE(rng, false)
+				pe.Nexp = &f
+			}
+			if pe.P.Kind == "ne" {
+				pe.P.Kind = "none"
+			}
+			ps = append(ps, pe)
+		}
+		ps = append(ps, prog{Kind: "SM", Hm: 2 + rng.Intn(4), Od: rng.Chance(70), Desc: true, P: plan{Kind: []string{"none", "none", "ne", "ge"}[rng.Intn(4)], A: rng.Intn(3), B: rng.Intn(2)}})
+		if rng.Bool() {
+			ps = append(ps, prog{Kind: "SM", Hm: 5, Desc: rng.Bool(), P: plan{Kind: "none"}})
+		}
+		add(runSeq(e, rs, ps, "desc"))
 	}
 
 	// 2. sequential histories
